@@ -2,6 +2,7 @@
 from checks import common
 from checks.c06 import REJ
 from gen import classes
+import units
 
 
 class C08(common.SpecCheck):
@@ -11,8 +12,8 @@ class C08(common.SpecCheck):
     rule = ("N compile nodes that differ only in interpreter hash seed compile the same partitioned specification "
             "(classes S, O, A-partitioned, K, T; metrics specs are covered by C11's replicas) in lock step. Invariants: "
             "(a) inside each node, parse-and-compile twice more, and compile twice from ONE set of parsed objects -> byte-identical text; (b) every distinct text is closed; "
-            "(c) all texts executed on identical inputs leave identical tensors under every <Name>_<Ranks> name they have "
-            "in common and identical outputs, equal to the dense model; (d) a compile that succeeds under one seed "
+            "(c) all texts executed on identical inputs leave identical tensors under the final name <Name>_<declared-or-"
+            "rank-order ranks> of every declared tensor (inputs, intermediates, outputs), equal to the dense model; (d) a compile that succeeds under one seed "
             "succeeds under all. distinct = distinct (spec, text); non-trivial = the spec produced >= 2 distinct texts "
             "across the seed pool (measure of interleavings reached: histogram of distinct texts per spec)")
     assumptions = ["hash seeds are sampled (8 quick / 32 thorough of 2^32)",
@@ -60,7 +61,11 @@ class C08(common.SpecCheck):
                 if run["exec"] != "ok":
                     # same failure on every replica: not an order effect (reported by C02-C06)
                     continue
-                common_names = sorted(set(run["tensor_digest"]) & set(ref["tensor_digest"]))
+                # the tensors a program computes are the declared ones under their final names; partitioned /
+                # swizzled stages are temporaries whose names are legitimately re-used by later Einsums with other
+                # partition sizes, so which stage a stale name still denotes depends on the emission order
+                finals = {units.input_var(spec, t)[0] for t in spec["decl"]}
+                common_names = sorted(set(run["tensor_digest"]) & set(ref["tensor_digest"]) & finals)
                 diff = [n for n in common_names if run["tensor_digest"][n] != ref["tensor_digest"][n]]
                 if diff:
                     vs.append(common.Violation("replicas_diverge_tensors", [ref_h, h], {"input_set": i, "vars": diff[:5]}))
